@@ -82,6 +82,9 @@ def cases(tier, seed):
                 for aij in AIJ0:
                     for axis in AXES:
                         out.append({"kind": "ldot", "pair": pair, "A_IJ0": aij, "angle0": 0.3, "axis": axis, "seed": seed})
+    for pair in PAIRS:
+        for axis in AXES:
+            out.append({"kind": "copy", "pair": pair, "A_IJ0": "generic", "angle0": 0.3, "axis": axis, "seed": seed})
     for pair in ("Fm-RB", "RB-Fm"):
         for axis in AXES:
             out.append({"kind": "ldot_frame", "pair": pair, "axis": axis, "seed": seed})
@@ -596,6 +599,42 @@ def check_ldot_frame(case):
     return {"fails": _dedup(fails), "nontrivial": evals >= 10, "evals": evals, "stats": stats, "outcome": "ldot_frame"}
 
 
+def check_copy(case):
+    """a deep-copied system: the copy's joint reports through its OWN tracker, by every accessor (l and the public alias angle),
+    and using the copy leaves the original's tracker alone (seeded C25-l)"""
+    N = 16
+    sc = Scen(case)
+    fails, evals = [], 0
+    t0 = sc.system.t0
+    # original: walk a quarter of the lattice
+    for r in range(0, 5):
+        sc.ask(sc.q_lattice(r, N))
+    before = sc.fields()
+    copy = sc.system.deepcopy()
+    jc = copy.contributions_map[sc.joint.name]
+    seq = list(range(5, 5 + 2 * N + 3))  # more than two further turns on the copy
+    for k, r in enumerate(seq):
+        q = sc.q_lattice(r % N, N)
+        acc = getattr(jc, "angle", None)
+        a1 = float(acc(t0, q[jc.qDOF])) if callable(acc) and k % 2 == 0 else float(jc.l(t0, q[jc.qDOF]))
+        a2 = float(jc.l(t0, q[jc.qDOF]))
+        want = sc.angle0 + 2 * math.pi * r / N
+        evals += 2
+        for nm, a in (("angle" if k % 2 == 0 else "l", a1), ("l (repeated query)", a2)):
+            if abs(a - want) > TOL_ANGLE:
+                fails.append({"site": "joint of a deep-copied system: reported angle vs angle0 + accumulated rotation", "msg": f"{nm} reports {a!r}, expected {want!r} at lattice step {r}",
+                              "data": {"accessor": nm, "step": r, "got": a, "want": want}})
+    if sc.fields() != before:
+        fails.append({"site": "using the joint of a deep copy changes the tracker of the original joint", "msg": f"{before} -> {sc.fields()}", "data": {}})
+    # the original continues its own history
+    a = sc.ask(sc.q_lattice(5, N))
+    want = sc.angle0 + 2 * math.pi * 5 / N
+    evals += 1
+    if abs(a - want) > TOL_ANGLE:
+        fails.append({"site": "original joint after its deep copy was used: reported angle vs angle0 + accumulated rotation", "msg": f"{a!r} vs {want!r}", "data": {"got": a, "want": want}})
+    return {"fails": _dedup(fails), "nontrivial": evals >= 10, "evals": evals, "outcome": "copy", "states": len(seq), "transitions": len(seq)}
+
+
 def check_tlc(case):
     """E4: TLC explores models/RevoluteTracker.tla; every model edge the implementation can take is replayed on a real joint"""
     from vp.scen import tlc_revolute
@@ -615,6 +654,8 @@ def check_tlc(case):
 
 
 def check(case):
+    if case["kind"] == "copy":
+        return check_copy(case)
     if case["kind"] == "ldot_frame":
         return check_ldot_frame(case)
     if case["kind"] == "tlc":
